@@ -68,7 +68,7 @@ def _key(*parts):
     return h.hexdigest()[:24]
 
 CLANG_FLAGS = ['-std=c++14', '-fno-vectorize', '-fno-slp-vectorize', '-fno-unroll-loops', '-ffp-contract=off',
-               '-fno-discard-value-names', '-fno-access-control', '-fno-math-errno', '-D' + GUARD, '-w']
+               '-fno-discard-value-names', '-fno-access-control', '-fno-math-errno', '-w']   # hooks (-DLIBPHYSICA_VERIF) are observation-only and compiled into the native replay build only
 
 def _prune_cache(maxfiles=400):
     fs = sorted(glob.glob(os.path.join(CACHE, '*')), key=os.path.getmtime)
